@@ -16,7 +16,7 @@ LEVEL = 'exploration'
 LEVEL_TEXT = ('Seeded bounded exploration at run time of the real Linen and NNX attention / recurrent layers: cells x T in 1..6 x '
               'batch shapes (), (2,), (2,3) (+ square (2,2), (3,3) for RNN with seq_lengths) x heads 1..3 x every reverse/keep_order/time_major/return_carry/seq_lengths flag '
               'combination (complete product for nn.RNN on the thorough tier) x seq_lengths in [1,T] per batch element x random '
-              'masks and biases. Each case compares the layer with (i) the same layer driven one step at a time, (ii) a paired '
+              'masks and biases, QK normalisation with independent random LayerNorm scales. Each case compares the layer with (i) the same layer driven one step at a time, (ii) a paired '
               'input that differs by +-1e3 on ignored positions only, (iii) float64 NumPy references written from the docstrings, '
               '(iv) the other API on the same parameters; a monitor watches the decode cache between steps.')
 LEVEL_NOTE = ('Trusts vf/refs/seq.py (NumPy references), the harness-side random parameter filling (parameter tree shapes are taken '
@@ -742,6 +742,11 @@ def mha_configs(ctx, n):
     out.append(dict(batch=BATCHES[(i // 3) % 3], T=1 + (i * 5 + i // 9 + i // 6) % 6, H=h, D=r.choice([1, 2]), F=r.choice([2, 3]),
                     Fout=r.choice([None, None, 2]), use_bias=r.random() < 0.75, mask=r.choice(['none', 'full', 'head1', 'batch1']),
                     bias=r.choice(['none', 'full', 'head1']), cache_init=r.choice(['apply', 'apply', 'init']), eager=r.random() < 0.12))
+    # QK normalisation with non-default LayerNorm scales (seeded change C13-b); head_dim >= 4 keeps the LayerNorm well conditioned
+    r2 = ctx.rng('attn.mha', 'nqk', i)
+    out[-1]['nqk'] = r2.random() < 0.35
+    if out[-1]['nqk']:
+      out[-1]['D'] = r2.choice([4, 8])
   return out
 
 
@@ -756,10 +761,11 @@ def run_mha_case(ctx, cfg, rg, index):
   nb = len(bs)
   eager = cfg['eager']
   z = nn.initializers.zeros_init()
-  kw = dict(num_heads=H, qkv_features=H * D, out_features=Fout, use_bias=ub)
+  nqk = cfg.get('nqk', False)
+  kw = dict(num_heads=H, qkv_features=H * D, out_features=Fout, use_bias=ub, normalize_qk=nqk)
   whole = nn.MultiHeadDotProductAttention(decode=False, **kw)
   dec = nn.MultiHeadDotProductAttention(decode=True, kernel_init=z, **kw)  # cheap initializer: init is used for the cache only
-  skey = ('mha_shapes', H, D, F, Fout, ub)
+  skey = ('mha_shapes', H, D, F, Fout, ub, nqk)
   if skey not in _CACHE:
     _CACHE[skey] = jax.eval_shape(lambda: whole.init(jax.random.key(0), np.zeros((1, F), np.float32)))['params']
   params = _random_tree(_CACHE[skey], rg)
@@ -879,11 +885,14 @@ def run_mha_case(ctx, cfg, rg, index):
             lambda: dict(detail, diff=[_diff(a, b) for a, b in zip(outs_g, outs)]))
 
   # ---------------- NNX on the same parameters
-  m = nnx.MultiHeadAttention(H, F, H * D, Fout, use_bias=ub, decode=True, kernel_init=z, rngs=nnx.Rngs(0))
+  m = nnx.MultiHeadAttention(H, F, H * D, Fout, use_bias=ub, decode=True, kernel_init=z, normalize_qk=nqk, rngs=nnx.Rngs(0))
   for nm in ('query', 'key', 'value', 'out'):
     getattr(m, nm).kernel.value = params[nm]['kernel']
     if ub:
       getattr(m, nm).bias.value = params[nm]['bias']
+  if nqk:
+    m.query_ln.scale.value = params['query_ln']['scale']
+    m.key_ln.scale.value = params['key_ln']['scale']
   ctx.op('nnx.MultiHeadAttention')
 
   def n_whole(mm, xc, xp, xq, k_in, v_in):
